@@ -96,7 +96,8 @@ class Ctx:
         }
         if extra:
             cov.update(extra)
-        core.write_evidence(self.pid, self.tier, self.seed, self.level, cov, wall)
+        if not os.environ.get('VERIF_SKIP_PROOFS') and core.REPO == '/repo':
+            core.write_evidence(self.pid, self.tier, self.seed, self.level, cov, wall)
         for fid, what in self.known:
             print('KNOWN-FINDING: property=%s %s [%s]' % (self.pid, what, fid))
         if not self.violations:
